@@ -89,10 +89,11 @@ var ErrInjected = errors.New("injected I/O fault")
 // FaultReader delivers Data[:At] and then fails.
 type FaultReader struct {
 	Data     []byte
-	At       int  // number of bytes delivered before the fault
-	Forever  bool // true: the error is returned on every later call; false: once, then io.EOF
-	WithData bool // true: the error is returned together with the last delivered bytes (if At > 0)
-	OneByte  bool // true: deliver one byte per Read
+	At       int   // number of bytes delivered before the fault
+	Forever  bool  // true: the error is returned on every later call; false: once, then io.EOF
+	WithData bool  // true: the error is returned together with the last delivered bytes (if At > 0)
+	OneByte  bool  // true: deliver one byte per Read
+	Err      error // the error to fail with (nil: ErrInjected)
 	off      int
 	faulted  bool
 	After    int // Read calls after the fault
@@ -114,14 +115,14 @@ func (r *FaultReader) Read(p []byte) (int, error) {
 			panic(ErrPolledTooOften)
 		}
 		if r.Forever {
-			return 0, ErrInjected
+			return 0, r.fault()
 		}
 		return 0, io.EOF
 	}
 	rem := r.At - r.off
 	if rem == 0 {
 		r.faulted = true
-		return 0, ErrInjected
+		return 0, r.fault()
 	}
 	n := min(len(p), rem)
 	if r.OneByte {
@@ -131,9 +132,16 @@ func (r *FaultReader) Read(p []byte) (int, error) {
 	r.off += n
 	if r.off == r.At && r.WithData {
 		r.faulted = true
-		return n, ErrInjected
+		return n, r.fault()
 	}
 	return n, nil
+}
+
+func (r *FaultReader) fault() error {
+	if r.Err != nil {
+		return r.Err
+	}
+	return ErrInjected
 }
 
 // LimitWriter accepts Limit bytes in total and then fails forever (or, with Once, fails the one
